@@ -1,6 +1,8 @@
 import LentilVerif.Model.PropSeg
 import LentilVerif.Lemmas.PlaneAlg
 import LentilVerif.Lemmas.PropLinear
+import LentilVerif.Lemmas.ChainExtents
+import LentilVerif.Lemmas.Window
 import LentilVerif.Props.C07
 /-! # C03 — splitting an aperture into segments never changes the result
 
@@ -42,7 +44,7 @@ theorem segments_sum (ph : R → K) (amp : Attr K) (opd : Attr R) (S0 S1 : Int) 
   induction ms with
   | nil => simp [segFactor]
   | cons m ms ih =>
-    rw [sumList_cons, ih (List.Pairwise.of_cons hdis)]
+    rw [sumL_cons, ih (List.Pairwise.of_cons hdis)]
     have hrest : ∀ b ∈ ms, ∀ i j, ¬ (m i j = true ∧ b i j = true) := (List.pairwise_cons.mp hdis).1
     unfold segFactor
     simp only [List.any_cons, Bool.or_eq_true]
@@ -70,7 +72,7 @@ theorem segmented_eq_monolithic (ph : R → K) (amp : Attr K) (opd : Attr R) (S0
   rw [C07.plane_multiply_pointwise ph amp opd S0 S1 l hc hbig data hd r c,
       C07.plane_multiply_pointwise ph amp opd S0 S1 [g0] (by simpa using hc0) (by simpa using hbig0) data hd r c]
   congr 1
-  rw [sumList_cons, sumList_nil, add_zero]
+  rw [sumL_cons, sumL_nil, add_zero]
   have := segments_sum ph amp opd S0 S1 (l.map Seg.m) hdis r c
   rw [sumList_map] at this
   rw [this]
@@ -227,5 +229,116 @@ theorem views_depend_on_total (nsq : K → K) (h0 : nsq 0 = 0) (S0 S1 : Int) (A 
   exact ⟨rfl, rfl⟩
 
 end coherent
+
+/-! ## End to end -/
+section endtoend
+variable {K R : Type} [Add R] [Sub R] [Mul R] [Neg R] [RealLike R] [NonAssocSemiring K] [CxLike K R]
+
+/-- every output field of the propagation has a positive shape (positive output and propagation shapes) -/
+theorem propagate_pos (data : List (Fld K)) (αr αc : R) (shapeOut propOut : Int × Int)
+    (hso : 0 < shapeOut.1 ∧ 0 < shapeOut.2) (hpo : 0 < propOut.1 ∧ 0 < propOut.2) :
+    ∀ g ∈ propagateDftNoTilt data αr αc shapeOut propOut, 0 < g.arr.s0 ∧ 0 < g.arr.s1 := by
+  intro g hg
+  unfold propagateDftNoTilt at hg
+  cases hw : propWindow shapeOut propOut with
+  | none => rw [hw] at hg; simp at hg
+  | some w =>
+    obtain ⟨ish, isft, psh⟩ := w
+    rw [hw] at hg
+    simp only [List.mem_map] at hg
+    obtain ⟨f, _, rfl⟩ := hg
+    show 0 < ish.1 ∧ 0 < ish.2
+    have hva : (arrayExtent shapeOut.1 shapeOut.2 0 0).rmin ≤ (arrayExtent shapeOut.1 shapeOut.2 0 0).rmax ∧
+        (arrayExtent shapeOut.1 shapeOut.2 0 0).cmin ≤ (arrayExtent shapeOut.1 shapeOut.2 0 0).cmax := by
+      rw [arrayExtent_eq]; simp only; omega
+    have hvb : (propExtent propOut.1 propOut.2 0 0).rmin ≤ (propExtent propOut.1 propOut.2 0 0).rmax ∧
+        (propExtent propOut.1 propOut.2 0 0).cmin ≤ (propExtent propOut.1 propOut.2 0 0).cmax := by
+      unfold propExtent; rw [arrayExtent_eq]; simp only; omega
+    unfold propWindow at hw
+    by_cases hint : intersect (arrayExtent shapeOut.1 shapeOut.2 0 0) (propExtent propOut.1 propOut.2 0 0) = true
+    · rw [dftWindow_some _ _ _ _ _ hva hpo hint, Option.some.injEq, Prod.mk.injEq] at hw
+      obtain ⟨h1, _⟩ := hw
+      rw [← h1]
+      have hv := intersectionExtent_valid _ _ hva hvb hint
+      simp only [Extent.nrow, Extent.ncol]; omega
+    · rw [dftWindow_none _ _ _ _ _ (by simpa using hint)] at hw; exact absurd hw (by simp)
+
+/-- **segmented = monolithic, end to end.** A fresh wavefront (one one-element field) passes a non-empty chain of planes;
+every plane is given twice, with its mask split into segments `l` (pairwise disjoint supports, bounding slices that cover
+them, possibly overlapping) and with the single union mask `g0` (`SplitPlane.WF`); then `propagate_dft` (tilt-free fields,
+no output mask) with any sampling and any output / propagation shape. Then at every sample of the output the complex
+`Wavefront.field` of the two descriptions agree, and so do the intensities (whenever `Wavefront.intensity` returns).
+All hypotheses are on the *input*: `WF` per plane, and `ExtOK` — computed from the bounding slices and shapes alone — says
+that no box and no intersection of boxes along the chain is a single pixel (the scope exclusion of the known finding
+KF-C03-one-pixel-segment). Composes `segments_sum`, `chain_distrib`, `propagate_linear`, C07 `intensity_eq_normSq_field`
+and C06 `reduce_total`/`reduce_pairwise_disjoint`. -/
+theorem segmented_eq_monolithic_end_to_end (ph : R → K) (w0 : Fld K) (h0 : w0.size1 = true)
+    (s : SplitPlane K R) (ss : List (SplitPlane K R)) (hwf : ∀ x ∈ s :: ss, x.WF)
+    (hEseg : ExtOK (ss.map fun x => x.seg.boxes) s.seg.boxes) (hEmono : ExtOK (ss.map fun x => x.mono.boxes) s.mono.boxes)
+    (αr αc : R) (shapeOut propOut : Int × Int) (hpo : 0 < propOut.1 ∧ 0 < propOut.2) (nsq : K → K) (hn : nsq 0 = 0) (i j : Int)
+    (hi : 0 ≤ i ∧ i < shapeOut.1) (hj : 0 ≤ j ∧ j < shapeOut.2) :
+    let A := propagateDftNoTilt (chainMultiply ph ((s :: ss).map SplitPlane.seg) [w0]) αr αc shapeOut propOut
+    let B := propagateDftNoTilt (chainMultiply ph ((s :: ss).map SplitPlane.mono) [w0]) αr αc shapeOut propOut
+    (wfField 1 shapeOut.1 shapeOut.2 A).get i j = (wfField 1 shapeOut.1 shapeOut.2 B).get i j ∧
+    ∀ IA IB, wfIntensity 1 nsq shapeOut.1 shapeOut.2 A = some IA → wfIntensity 1 nsq shapeOut.1 shapeOut.2 B = some IB →
+      IA.get i j = IB.get i j := by
+  intro A B
+  have hsegok : ∀ x ∈ s :: ss, x.seg.ok := fun x hx => (hwf x hx).1
+  have hmonook : ∀ x ∈ s :: ss, x.mono.ok := fun x hx => (hwf x hx).2.1
+  -- side conditions of the chain theorem, from the input
+  obtain ⟨okS, finS⟩ := chainOK_fresh ph w0 h0 s.seg (ss.map SplitPlane.seg) (hsegok s (List.mem_cons_self ..))
+    (by intro x hx; obtain ⟨y, hy, rfl⟩ := List.mem_map.mp hx; exact hsegok y (List.mem_cons_of_mem _ hy))
+    (by rw [List.map_map]; exact hEseg)
+  obtain ⟨okM, finM⟩ := chainOK_fresh ph w0 h0 s.mono (ss.map SplitPlane.mono) (hmonook s (List.mem_cons_self ..))
+    (by intro x hx; obtain ⟨y, hy, rfl⟩ := List.mem_map.mp hx; exact hmonook y (List.mem_cons_of_mem _ hy))
+    (by rw [List.map_map]; exact hEmono)
+  -- plane by plane the transmissions agree
+  have hT : ((s :: ss).map SplitPlane.seg).map (planeT ph) = ((s :: ss).map SplitPlane.mono).map (planeT ph) := by
+    rw [List.map_map, List.map_map]
+    apply List.map_congr_left
+    intro x hx
+    obtain ⟨h1, h2, hdis, hM⟩ := hwf x hx
+    funext r c
+    show planeT ph x.seg r c = planeT ph x.mono r c
+    unfold SplitPlane.seg SplitPlane.mono
+    rw [planeT_segs ph x.amp x.opd x.S0 x.S1 x.l h1 r c, planeT_segs ph x.amp x.opd x.S0 x.S1 [x.g0] h2 r c,
+        sumL_cons, sumL_nil, add_zero]
+    have := segments_sum ph x.amp x.opd x.S0 x.S1 (x.l.map Seg.m) hdis r c
+    rw [sumList_map] at this
+    rw [this]
+    exact (segFactor_congr ph x.amp x.opd x.S0 x.S1 _ _ r c (hM _ _)).symm
+  have hsem := chain_segmented_eq ph _ _ [w0] okS okM hT
+  -- no one-element field at the end: `sem` is `emb`
+  have hemb : ∀ r c, sumList (chainMultiply ph ((s :: ss).map SplitPlane.seg) [w0]) (fun g => g.emb r c)
+      = sumList (chainMultiply ph ((s :: ss).map SplitPlane.mono) [w0]) (fun g => g.emb r c) := by
+    intro r c
+    have e1 : sumList (chainMultiply ph ((s :: ss).map SplitPlane.seg) [w0]) (fun g => g.emb r c)
+        = sumList (chainMultiply ph ((s :: ss).map SplitPlane.seg) [w0]) (fun g => g.sem r c) := by
+      apply sumList_congr; intro g hg; simp only [Fld.sem, (finS g hg).1, Bool.false_eq_true, if_false]
+    have e2 : sumList (chainMultiply ph ((s :: ss).map SplitPlane.mono) [w0]) (fun g => g.emb r c)
+        = sumList (chainMultiply ph ((s :: ss).map SplitPlane.mono) [w0]) (fun g => g.sem r c) := by
+      apply sumList_congr; intro g hg; simp only [Fld.sem, (finM g hg).1, Bool.false_eq_true, if_false]
+    rw [e1, e2]; exact hsem r c
+  have hposS : ∀ f ∈ chainMultiply ph ((s :: ss).map SplitPlane.seg) [w0], 0 < f.arr.s0 ∧ 0 < f.arr.s1 :=
+    fun f hf => (pos_iff_valid f).mpr (finS f hf).2
+  have hposM : ∀ f ∈ chainMultiply ph ((s :: ss).map SplitPlane.mono) [w0], 0 < f.arr.s0 ∧ 0 < f.arr.s1 :=
+    fun f hf => (pos_iff_valid f).mpr (finM f hf).2
+  -- propagation is additive in the embedded field
+  have htot : ∀ r c, sumList A (fun g => g.emb r c) = sumList B (fun g => g.emb r c) :=
+    fun r c => propagate_linear_emb _ _ hposS hposM hemb αr αc shapeOut propOut r c
+  refine ⟨?_, ?_⟩
+  · rw [C07.field_eq_sum _ _ A i j hi hj, C07.field_eq_sum _ _ B i j hi hj, htot]
+  · intro IA IB hIA hIB
+    exact (views_depend_on_total nsq hn _ _ A B (propagate_pos _ αr αc shapeOut propOut ⟨by omega, by omega⟩ hpo) (propagate_pos _ αr αc shapeOut propOut ⟨by omega, by omega⟩ hpo)
+      htot IA IB hIA hIB i j hi hj).2
+
+/-- non-vacuity: a chain of two planes, each split into the segments `g2`, `g3` (union `g23`), satisfies `WF` and `ExtOK` -/
+example : (∀ x ∈ [Witness.sp, Witness.sp], x.WF) ∧
+    ExtOK ([Witness.sp].map fun x => x.seg.boxes) Witness.sp.seg.boxes ∧
+    ExtOK ([Witness.sp].map fun x => x.mono.boxes) Witness.sp.mono.boxes :=
+  ⟨by intro x hx; simp only [List.mem_cons, List.not_mem_nil, or_false, or_self] at hx; subst hx; exact Witness.sp_wf,
+   Witness.sp_ext.1, Witness.sp_ext.2⟩
+
+end endtoend
 
 end Lentil.C03
